@@ -389,7 +389,9 @@ theorem guardLine_none_iff (k : Kind) (p : Int) (cur : Option Int) : guardLine k
         simp only [hd, ↓reduceIte] at h
         split at h
         · cases h
-        · split at h <;> cases h
+        · split at h
+          · cases h
+          · split at h <;> cases h
       · intro h; omega
 
 theorem guardFirst_none_iff (k : Kind) (cs : List Const) (cur : Name → Option Int) :
